@@ -193,6 +193,35 @@ class _Subst(ast.NodeTransformer):
     def __init__(self, mapping):
         self.mapping = mapping
 
+    def _scoped(self, n):
+        """A nested function / lambda: its own parameters and locals shadow the names being substituted."""
+        a = n.args
+        own = {x.arg for x in a.posonlyargs + a.args + a.kwonlyargs}
+        if a.vararg:
+            own.add(a.vararg.arg)
+        if a.kwarg:
+            own.add(a.kwarg.arg)
+        body = n.body if isinstance(n.body, list) else [n.body]
+        if isinstance(n, (ast.FunctionDef, ast.AsyncFunctionDef)):
+            nonlocal_ = {x for st in ast.walk(n) if isinstance(st, (ast.Nonlocal, ast.Global)) for x in st.names}
+            own |= {x.id for st in body for x in ast.walk(st) if isinstance(x, ast.Name) and isinstance(x.ctx, (ast.Store, ast.Del))} - nonlocal_
+        a.defaults = [self.visit(d) for d in a.defaults]
+        a.kw_defaults = [self.visit(d) if d is not None else None for d in a.kw_defaults]
+        if isinstance(n, (ast.FunctionDef, ast.AsyncFunctionDef)):
+            n.decorator_list = [self.visit(d) for d in n.decorator_list]
+        inner = _Subst({k: v for k, v in self.mapping.items() if k not in own})
+        if isinstance(n.body, list):
+            n.body = [inner.visit(st) for st in n.body]
+        else:
+            n.body = inner.visit(n.body)
+        return n
+
+    def visit_FunctionDef(self, n):
+        return self._scoped(n)
+
+    def visit_Lambda(self, n):
+        return self._scoped(n)
+
     def visit_Name(self, n):
         if n.id in self.mapping:
             new = copy.deepcopy(self.mapping[n.id])
@@ -200,6 +229,9 @@ class _Subst(ast.NodeTransformer):
                 new.ctx = n.ctx
             return ast.copy_location(new, n)
         return n
+
+
+_EXPLICIT = object()     # marker: every parameter (including self) is passed explicitly
 
 
 def _simple(arg):
@@ -222,6 +254,18 @@ def resolve_helper(model, func, call):
             cur = cur.parent
     elif isinstance(f, ast.Attribute) and isinstance(f.value, ast.Name) and func.params and f.value.id in (func.params[0], 'cls', 'self'):
         name, bound_self = f.attr, f.value
+    elif (isinstance(f, ast.Attribute) and isinstance(f.value, ast.Name) and f.value.id in func.module.classes
+          and f.attr.startswith('_') and not f.attr.startswith('__') and f.attr not in PINNED_PRIVATE):
+        # ``ClassName._helper(...)``: looked up on the class - a staticmethod is called as is, a classmethod is bound to
+        # the class, a plain function receives its instance as the explicit first argument
+        for k in model.mro(func.module.classes[f.value.id]):
+            if f.attr in k.methods:
+                target = k.methods[f.attr]
+                deco = [(chain(d.func if isinstance(d, ast.Call) else d) or [''])[-1] for d in target.node.decorator_list]
+                if 'classmethod' in deco:
+                    return target, f.value
+                return target, _EXPLICIT
+        return None, None
     if not name or not name.startswith('_') or name.startswith('__') or name in PINNED_PRIVATE:
         return None, None
     if bound_self is None:
@@ -239,49 +283,105 @@ def resolve_helper(model, func, call):
     return None, None
 
 
-def inline_call(target, call, bound_self, mode):
+def _own_walk(stmts_):
+    """All nodes of the statements, not descending into nested function definitions / lambdas (their bodies are
+    other scopes); the definition node itself is yielded."""
+    todo = list(stmts_)
+    while todo:
+        n = todo.pop()
+        yield n
+        if isinstance(n, (ast.FunctionDef, ast.AsyncFunctionDef, ast.Lambda, ast.ClassDef)) and n not in stmts_:
+            continue
+        if isinstance(n, (ast.FunctionDef, ast.AsyncFunctionDef, ast.Lambda, ast.ClassDef)):
+            continue
+        todo.extend(ast.iter_child_nodes(n))
+
+
+def _is_local(caller, name):
+    """``name`` is a parameter of the caller or assigned in the caller's own scope (not a closure / global variable)."""
+    if name in caller.params:
+        return True
+    return any(isinstance(n, ast.Name) and n.id == name and isinstance(n.ctx, ast.Store) for n in _own_walk(list(caller.node.body)))
+
+
+def _in_loop(caller, call):
+    return any(isinstance(n, (ast.For, ast.AsyncFor, ast.While)) and any(c is call for c in ast.walk(n)) for n in ast.walk(caller.node))
+
+
+def _live_after(caller, call, name):
+    """Is ``name`` read in the caller after the call statement (or is the call inside a loop, where "after" wraps around)?"""
+    if caller is None:
+        return True
+    end = (getattr(call, 'end_lineno', call.lineno), getattr(call, 'end_col_offset', 0))
+    for n in ast.walk(caller.node):
+        if isinstance(n, (ast.For, ast.AsyncFor, ast.While)) and any(c is call for c in ast.walk(n)):
+            return True
+    for n in ast.walk(caller.node):
+        if isinstance(n, ast.Name) and n.id == name and isinstance(n.ctx, ast.Load):
+            if (n.lineno, n.col_offset) > end:
+                return True
+    return False
+
+
+def inline_call(target, call, bound_self, mode, caller=None, depth=0):
     """Statements equivalent to the call.  mode: 'stmt' (value unused), 'return', ('assign', name).  None if not inlinable."""
     node = target.node
     a = node.args
-    if a.vararg or a.kwarg or a.kwonlyargs or a.posonlyargs or any(isinstance(x, ast.Starred) for x in call.args) \
+    if a.vararg or a.kwarg or a.posonlyargs or any(isinstance(x, ast.Starred) for x in call.args) \
             or any(k.arg is None for k in call.keywords):
         return None
-    if any(isinstance(n, (ast.Yield, ast.YieldFrom, ast.Global, ast.Nonlocal)) for n in ast.walk(node)):
-        return None
-    if any(isinstance(n, (ast.FunctionDef, ast.AsyncFunctionDef, ast.ClassDef, ast.Lambda)) for s in node.body for n in ast.walk(s)):
+    if any(isinstance(n, (ast.Yield, ast.YieldFrom, ast.Global, ast.Nonlocal, ast.AsyncFunctionDef, ast.ClassDef)) for n in ast.walk(node)):
         return None
     params = [x.arg for x in a.args]
     deco = [(chain(d.func if isinstance(d, ast.Call) else d) or [''])[-1] for d in node.decorator_list]
     if any(d not in ('staticmethod', 'classmethod') for d in deco):
         return None      # a decorator (cache, property ...) changes what a call means
     args = list(call.args)
-    if bound_self is not None and 'staticmethod' not in deco:
+    if bound_self is not None and bound_self is not _EXPLICIT and 'staticmethod' not in deco:
         args = [bound_self] + args
     if len(args) > len(params):
         return None
     binding = dict(zip(params, args))
+    kwonly = [x.arg for x in a.kwonlyargs]
     for k in call.keywords:
-        if k.arg not in params or k.arg in binding:
+        if k.arg not in params + kwonly or k.arg in binding:
             return None
         binding[k.arg] = k.value
     defaults = dict(zip(params[len(params) - len(a.defaults):], a.defaults))
+    defaults.update({x.arg: d for x, d in zip(a.kwonlyargs, a.kw_defaults) if d is not None})
+    params = params + kwonly
     for p_ in params:
         if p_ not in binding:
             if p_ not in defaults:
                 return None
             binding[p_] = defaults[p_]
     body = copy.deepcopy(target.body)
-    # parameters assigned inside the helper, or non-simple arguments, get a fresh local
-    assigned = {n.id for s in body for n in ast.walk(s) if isinstance(n, ast.Name) and isinstance(n.ctx, (ast.Store, ast.Del))}
+    own = list(_own_walk(body))
+    # names the helper binds in its own scope; nested function definitions keep their name (rules anchor on them) and
+    # must not clash with a name of the caller
+    assigned = {n.id for n in own if isinstance(n, ast.Name) and isinstance(n.ctx, (ast.Store, ast.Del))}
+    nested_names = {n.name for n in own if isinstance(n, ast.FunctionDef)}
+    if nested_names:
+        if caller is None:
+            return None
+        caller_names = {n.id for n in ast.walk(caller.node) if isinstance(n, ast.Name)} | set(caller.nested) | set(caller.params)
+        if nested_names & (caller_names | assigned | set(params)):
+            return None
     pre = []
     mapping = {}
     for p_ in params:
         arg = binding[p_]
-        uses = sum(1 for s in body for n in ast.walk(s) if isinstance(n, ast.Name) and n.id == p_)
+        uses = sum(1 for st in body for n in ast.walk(st) if isinstance(n, ast.Name) and n.id == p_)
         if _simple(arg) and p_ not in assigned:
             mapping[p_] = arg
         elif uses <= 1 and p_ not in assigned:
             mapping[p_] = arg      # a non-trivial argument used once: placed at its single use
+        elif isinstance(arg, ast.Name) and caller is not None and _is_local(caller, arg.id) \
+                and (not _live_after(caller, call, arg.id)
+                     or (isinstance(mode, tuple) and isinstance(mode[1], ast.Name) and mode[1].id == arg.id and not _in_loop(caller, call))) \
+                and sum(1 for v in binding.values() for n in ast.walk(v) if isinstance(n, ast.Name) and n.id == arg.id) == 1:
+            # the helper rebinds its parameter; the caller's own variable is dead after the call, so it can play that role
+            mapping[p_] = arg
         else:
             tmp = fresh(p_)
             asg = ast.Assign(targets=[ast.Name(id=tmp, ctx=ast.Store())], value=arg)
@@ -289,30 +389,121 @@ def inline_call(target, call, bound_self, mode):
             ast.fix_missing_locations(asg)
             pre.append(asg)
             mapping[p_] = ast.Name(id=tmp, ctx=ast.Load())
-    # rename the helper's own locals
+    # rename the helper's own locals; a local that is just the returned value takes the name it is assigned to at the
+    # call (``objects, rows = helper(d)`` with ``return objects_, rows_``), unless that name is read by the helper
+    # (as an argument or a free variable) - then a fresh name is the only safe choice
+    adopt = {}
+    if isinstance(mode, tuple) and mode[0] == 'assign':
+        rets0 = [n for n in own if isinstance(n, ast.Return) and n.value is not None]
+        tgt = mode[1]
+        shapes = set()
+        for r in rets0:
+            if isinstance(r.value, ast.Name) and isinstance(tgt, ast.Name):
+                shapes.add(((r.value.id, tgt.id),))
+            elif (isinstance(r.value, ast.Tuple) and isinstance(tgt, ast.Tuple) and len(r.value.elts) == len(tgt.elts)
+                  and all(isinstance(e, ast.Name) for e in list(r.value.elts) + list(tgt.elts))):
+                shapes.add(tuple((e.id, t.id) for e, t in zip(r.value.elts, tgt.elts)))
+            else:
+                shapes.add(None)
+        if len(shapes) == 1 and None not in shapes:
+            pairs = next(iter(shapes))
+            read_outside = {n.id for v in binding.values() for n in ast.walk(v) if isinstance(n, ast.Name)}
+            free = {n.id for st in body for n in ast.walk(st) if isinstance(n, ast.Name)} - assigned - set(params)
+            tnames = [t for _, t in pairs]
+            if (len(set(tnames)) == len(tnames) and len({l for l, _ in pairs}) == len(pairs)
+                    and all(l in assigned and l not in params for l, _ in pairs) and not (set(tnames) & (read_outside | free))):
+                adopt = dict(pairs)
     for loc in sorted(assigned - set(params)):
-        mapping[loc] = ast.Name(id=fresh(loc), ctx=ast.Load())
-    body = [_Subst(mapping).visit(s) for s in body]
-    rets = [n for s in body for n in ast.walk(s) if isinstance(n, ast.Return)]
+        mapping[loc] = ast.Name(id=adopt.get(loc) or fresh(loc), ctx=ast.Load())
+    body = [_Subst(mapping).visit(st) for st in body]
+    relpath = target.module.relpath
+    step = 1e-4 ** (depth + 1)
+    base = call.lineno
+    k = 0
+    for st in body:
+        for n in ast.walk(st):
+            if hasattr(n, 'lineno'):
+                k += 1
+                if not hasattr(n, '_src'):
+                    n._src = (relpath, int(n.lineno))
+                n.lineno = n.end_lineno = base + min(k, 9000) * step
+    rets = [n for n in _own_walk(body) if isinstance(n, ast.Return)]
+
+    def located(stmts_):
+        nonlocal k
+        for st in stmts_:
+            for n in ast.walk(st):
+                if isinstance(n, (ast.stmt, ast.expr)) and not hasattr(n, 'lineno'):
+                    k += 1
+                    n.lineno = n.end_lineno = base + min(k, 9000) * step
+                    n.col_offset = n.end_col_offset = 0
+        return stmts_
+
     if mode == 'return':
         if not body or not _all_paths_return(body):
-            body = body + [ast.copy_location(ast.Return(value=ast.Constant(value=None)), call)]
-        return pre + body
-    # 'stmt' / assign: only a single trailing return (or none) can be spliced without control-flow surgery
-    if any(r is not body[-1] for r in rets):
+            body = body + [ast.Return(value=ast.Constant(value=None))]
+        return pre + located(body)
+    # 'stmt' / assign: returns in tail position become assignments to the target (branches are kept); a return
+    # anywhere else (inside a loop, try) cannot be spliced without control-flow surgery
+    conv = _tail_returns(body, None if mode == 'stmt' else mode[1])
+    if conv is None:
         return None
-    if mode == 'stmt':
-        if rets:
-            last = ast.Expr(value=body[-1].value) if body[-1].value is not None else ast.Pass()
-            body[-1] = ast.copy_location(last, body[-1])
-        return pre + body
-    if isinstance(mode, tuple) and mode[0] == 'assign':
-        value = body[-1].value if rets and body[-1].value is not None else ast.Constant(value=None)
-        asg = ast.Assign(targets=[mode[1]], value=value)
-        ast.copy_location(asg, call)
-        ast.fix_missing_locations(asg)
-        return pre + (body[:-1] if rets else body) + [asg]
-    return None
+    # ``x = x`` left over when the helper's result variable took the target's name
+    conv = _drop_identity_assign(conv)
+    return pre + located(conv)
+
+
+def _drop_identity_assign(block):
+    out = []
+    for st in block:
+        if isinstance(st, ast.Assign) and len(st.targets) == 1 and ast.dump(st.targets[0]).replace('Store()', 'Load()') == ast.dump(st.value):
+            continue
+        if isinstance(st, ast.If):
+            st.body = _drop_identity_assign(st.body) or [ast.Pass()]
+            st.orelse = _drop_identity_assign(st.orelse)
+        out.append(st)
+    return out
+
+
+def _tail_returns(body, target):
+    """``body`` with every return replaced by ``target = value`` (or dropped), provided each return sits in tail position
+    (last statement, possibly under if/else chains, or a guard ``if c: ...; return`` whose continuation moves into an
+    ``else``).  None when a return sits elsewhere."""
+    def value_stmt(r):
+        if target is None:
+            return [ast.copy_location(ast.Expr(value=r.value), r)] if r.value is not None and not isinstance(r.value, (ast.Name, ast.Constant)) else []
+        asg = ast.Assign(targets=[copy.deepcopy(target)], value=r.value if r.value is not None else ast.Constant(value=None))
+        for n in ast.walk(asg.targets[0]):
+            ast.copy_location(n, r)
+        return [ast.copy_location(asg, r)]
+
+    def has_return(stmts_):
+        return any(isinstance(n, ast.Return) for n in _own_walk(list(stmts_)))
+
+    def conv(block):
+        out = []
+        for i, st in enumerate(block):
+            rest = block[i + 1:]
+            if isinstance(st, ast.Return):
+                return out + value_stmt(st)
+            if isinstance(st, ast.If) and has_return([st]):
+                if st.orelse:
+                    body_c = conv(st.body + ([] if _never_falls_through(st.body) else rest))
+                    else_c = conv(st.orelse + ([] if _never_falls_through(st.orelse) else rest))
+                else:
+                    body_c = conv(st.body + ([] if _never_falls_through(st.body) else rest))
+                    else_c = conv(rest)
+                if body_c is None or else_c is None:
+                    return None
+                new = ast.If(test=st.test, body=body_c or [ast.Pass()], orelse=else_c)
+                return out + [ast.copy_location(new, st)]
+            if has_return([st]):
+                return None
+            out.append(st)
+        if target is not None and not (out and isinstance(out[-1], (ast.Raise, ast.Continue, ast.Break))):
+            out += [ast.Assign(targets=[copy.deepcopy(target)], value=ast.Constant(value=None))]
+        return out
+    return conv(list(body))
 
 
 def _all_paths_return(body):
@@ -324,6 +515,59 @@ def _all_paths_return(body):
     if isinstance(last, ast.If) and last.orelse:
         return _all_paths_return(last.body) and _all_paths_return(last.orelse)
     return False
+
+
+class _Fold(ast.NodeTransformer):
+    """T8: a literal True/False/None substituted for a parameter decides ``A if <const> else B``, ``if <const>:``,
+    ``not <const>`` and ``<const> is [not] None`` (only on freshly spliced statements)."""
+
+    @staticmethod
+    def _truth(n):
+        if isinstance(n, ast.Constant) and (n.value is None or isinstance(n.value, (bool, int, str))):
+            return bool(n.value)
+        return None
+
+    def visit_UnaryOp(self, n):
+        self.generic_visit(n)
+        if isinstance(n.op, ast.Not) and self._truth(n.operand) is not None:
+            return ast.copy_location(ast.Constant(value=not self._truth(n.operand)), n)
+        return n
+
+    def visit_Compare(self, n):
+        self.generic_visit(n)
+        if (len(n.ops) == 1 and isinstance(n.ops[0], (ast.Is, ast.IsNot)) and isinstance(n.left, ast.Constant)
+                and isinstance(n.comparators[0], ast.Constant) and n.comparators[0].value is None):
+            r = n.left.value is None
+            return ast.copy_location(ast.Constant(value=r if isinstance(n.ops[0], ast.Is) else not r), n)
+        return n
+
+    def visit_IfExp(self, n):
+        self.generic_visit(n)
+        t = self._truth(n.test)
+        if t is None:
+            return n
+        return n.body if t else n.orelse
+
+    def visit_If(self, n):
+        self.generic_visit(n)
+        t = self._truth(n.test)
+        if t is None:
+            return n
+        return (n.body if t else n.orelse) or [ast.copy_location(ast.Pass(), n)]
+
+    def visit_FunctionDef(self, n):
+        return n
+
+    def visit_Lambda(self, n):
+        return n
+
+
+def _fold_constants(block):
+    out = []
+    for st in block:
+        r = _Fold().visit(st)
+        out += r if isinstance(r, list) else [r]
+    return out
 
 
 def t5_inline(model, func, body, depth=0):
@@ -339,13 +583,68 @@ def t5_inline(model, func, body, depth=0):
         if call is not None and depth < 3:
             target, bound = resolve_helper(model, func, call)
             if target is not None and target is not func:
-                new = inline_call(target, call, bound, mode)
+                new = inline_call(target, call, bound, mode, caller=func, depth=depth)
                 if new is not None:
+                    new = _fold_constants(new)
                     for n in new:
-                        ast.fix_missing_locations(n)
+                        if not isinstance(n, (ast.FunctionDef, ast.AsyncFunctionDef, ast.ClassDef)):
+                            # calls inside the spliced statements' own blocks (loops, branches)
+                            transform_blocks(n, lambda b, d=depth + 1: t5_inline(model, func, b, d))
                     out += t5_inline(model, func, new, depth + 1)
                     continue
         out.append(s)
+    return out
+
+
+class _T7(ast.NodeTransformer):
+    """T7: ``getattr(x, 'name')`` -> ``x.name``; the statement ``setattr(x, 'name', v)`` -> ``x.name = v`` (literal
+    identifier, no default argument): the same operation by the data model."""
+
+    @staticmethod
+    def _ident(n):
+        return isinstance(n, ast.Constant) and isinstance(n.value, str) and n.value.isidentifier() and not n.value.startswith('__')
+
+    def visit_Call(self, n):
+        self.generic_visit(n)
+        if isinstance(n.func, ast.Name) and n.func.id == 'getattr' and len(n.args) == 2 and not n.keywords and self._ident(n.args[1]):
+            return ast.copy_location(ast.Attribute(value=n.args[0], attr=n.args[1].value, ctx=ast.Load()), n)
+        return n
+
+    def visit_Expr(self, s):
+        self.generic_visit(s)
+        n = s.value
+        if (isinstance(n, ast.Call) and isinstance(n.func, ast.Name) and n.func.id == 'setattr' and len(n.args) == 3 and not n.keywords
+                and self._ident(n.args[1])):
+            tgt = ast.Attribute(value=n.args[0], attr=n.args[1].value, ctx=ast.Store())
+            return ast.copy_location(ast.Assign(targets=[tgt], value=n.args[2]), s)
+        return s
+
+
+def t9_unpack_forward(body, whole):
+    """T9: ``a, b = X`` ; ``P, Q = a, b``  ->  ``P, Q = X``  (adjacent statements; a, b plain locals that occur nowhere
+    else in the function): unpacking into temporaries that are only passed on is unpacking into the final targets -
+    X is evaluated and unpacked once either way, and a length mismatch raises the same ValueError before any target is
+    bound... provided P, Q are bound left to right exactly as a, b were, which tuple assignment does."""
+    out = []
+    i = 0
+    while i < len(body):
+        s = body[i]
+        nxt = body[i + 1] if i + 1 < len(body) else None
+        if (isinstance(s, ast.Assign) and len(s.targets) == 1 and isinstance(s.targets[0], ast.Tuple)
+                and all(isinstance(e, ast.Name) for e in s.targets[0].elts)
+                and isinstance(nxt, ast.Assign) and len(nxt.targets) == 1 and isinstance(nxt.targets[0], ast.Tuple)
+                and isinstance(nxt.value, ast.Tuple) and len(nxt.value.elts) == len(s.targets[0].elts)
+                and len(nxt.targets[0].elts) == len(nxt.value.elts)
+                and all(isinstance(v, ast.Name) and v.id == t.id for v, t in zip(nxt.value.elts, s.targets[0].elts))):
+            temps = [t.id for t in s.targets[0].elts]
+            uses = sum(1 for n in ast.walk(whole) if isinstance(n, ast.Name) and n.id in temps)
+            if len(set(temps)) == len(temps) and uses == 2 * len(temps):
+                new = ast.Assign(targets=nxt.targets, value=s.value)
+                out.append(ast.copy_location(new, nxt))
+                i += 2
+                continue
+        out.append(s)
+        i += 1
     return out
 
 
@@ -358,6 +657,7 @@ def normalize_function(model, func):
 
     def passes(block):
         block = t5_inline(model, func, block)
+        block = t9_unpack_forward(block, node)
         block = t3_list_sort(block)
         text = ast.unparse(ast.Module(body=block, type_ignores=[]))
         block = t4_alias_call(block, text)
@@ -367,5 +667,6 @@ def normalize_function(model, func):
         return block
 
     transform_blocks(node, passes)
+    node = _T7().visit(node)
     ast.fix_missing_locations(holder)
     return node
